@@ -103,3 +103,30 @@ Theorem C19_lon_periodic :
 Proof. exact lon_periodic. Qed.
 Print Assumptions C19_lon_periodic.
 
+(* ---- Interval model soundness: the executable interval instance (used by the correspondence check) encloses the
+   ideal-real instance about which the theorems of this file speak.  [encl i x] = the real x lies in the interval i;
+   [sound_opt rel a b] = whenever the interval run answers [Some], the real run answers [Some] with a related value
+   (the interval run may give up with [None], never answer differently). ---- *)
+From A5 Require Import Num.IvInst Num.IvSound Geo.IvSoundGeo Geo.IvSoundCell.
+
+Theorem C19_interval_authalic_forward_sound : forall phi phi',
+  encl phi phi' -> encl (authalic_forward IvInst phi) (authalic_forward RInst phi').
+Proof. exact authalic_forward_sound. Qed.
+Print Assumptions C19_interval_authalic_forward_sound.
+
+Theorem C19_interval_authalic_inverse_sound : forall phi phi',
+  encl phi phi' -> encl (authalic_inverse IvInst phi) (authalic_inverse RInst phi').
+Proof. exact authalic_inverse_sound. Qed.
+Print Assumptions C19_interval_authalic_inverse_sound.
+
+Theorem C19_interval_from_lon_lat_sound : forall lon lat lon' lat',
+  encl lon lon' -> encl lat lat' ->
+  encl2 (from_lon_lat IvInst lon lat) (from_lon_lat RInst lon' lat').
+Proof. exact from_lon_lat_sound. Qed.
+Print Assumptions C19_interval_from_lon_lat_sound.
+
+Theorem C19_interval_to_lon_lat_sound : forall th ph th' ph',
+  encl th th' -> encl ph ph' ->
+  encl2 (to_lon_lat IvInst th ph) (to_lon_lat RInst th' ph').
+Proof. exact to_lon_lat_sound. Qed.
+Print Assumptions C19_interval_to_lon_lat_sound.
